@@ -212,6 +212,12 @@ func Positions(level int) []Position {
 			Position{"itemobj", func(l J, r bool) J {
 				return obj(J{"a": J{"type": "array", "items": obj(J{"p": l}, req(r, "p"))}}, A{"a"})
 			}},
+			Position{"anyof-branch", func(l J, r bool) J {
+				return obj(J{"c": J{"anyOf": A{l, obj(J{"q": J{"type": "integer"}}, A{"q"})}}}, req(r, "c"))
+			}},
+			Position{"allof-branch", func(l J, r bool) J {
+				return obj(J{"c": J{"allOf": A{l, obj(J{"q": J{"type": "integer"}}, nil)}}}, req(r, "c"))
+			}},
 			Position{"addl", func(l J, r bool) J {
 				o := obj(J{"k": J{"type": "string"}}, nil)
 				o["additionalProperties"] = l
